@@ -6,5 +6,8 @@ import Inkayaku.Props.Translated.Square
 import Inkayaku.Props.Translated.Ordering
 import Inkayaku.Props.Translated.Fen
 import Inkayaku.Props.Translated.Time
+import Inkayaku.Props.Translated.Table
+import Inkayaku.Props.Translated.Magic
+import Inkayaku.Props.Translated.MoveBits
 /-! Umbrella module: the equivalence theorems between the Rust functions translated on every run (`Gen/Rs/*.lean`, by
 `/verif/translator`) and the hand-written model live in `Props/Translated/*.lean`, one file per Rust source. -/
